@@ -202,11 +202,13 @@ def run(ctx):
                              f'{type(exc).__name__}: {exc}')
                 os.remove(path)
                 n += 1
-            for text in INVALID_TEXTS:
+            for text in INVALID_TEXTS + [b'\xe9\xe9 F0 01 02 F7', b'\xef\xbb\xbfF0 01 F7',
+                                         b'\xff\xfeF\x000\x00', b'\x80', b'\xf7 F0 01 F7']:
                 path = os.path.join(d, f'i{ctx.count_files}.syx')
                 ctx.count_files += 1
-                with open(path, 'w') as f:
-                    f.write(text)
+                with open(path, 'wb') as f:
+                    f.write(text if isinstance(text, bytes) else text.encode('ascii'))
+                text = repr(text)
                 case = {'kind': 'invalid', 'text': text}
                 try:
                     got = read_syx_file(path)
@@ -218,6 +220,26 @@ def run(ctx):
                               f'{type(exc).__name__}: {exc}')
                 os.remove(path)
                 n += 1
+            # writing over an existing, longer file replaces it
+            for plaintext in (False, True):
+                for first_plain in (False, True):
+                    path = os.path.join(d, f'ow{ctx.count_files}.syx')
+                    ctx.count_files += 1
+                    long_list = [Message('sysex', data=(i, i, i, i)) for i in range(6)]
+                    case = {'kind': 'overwrite', 'first_plaintext': first_plain, 'second_plaintext': plaintext}
+                    try:
+                        write_syx_file(path, long_list, plaintext=first_plain)
+                        for second in ([Message('sysex', data=(99,))], [Message('note_on')], []):
+                            write_syx_file(path, second, plaintext=plaintext)
+                            got = read_syx_file(path)
+                            want = [tuple(m.data) for m in second if m.type == 'sysex']
+                            ctx.check('read(write(L)) == sysex(L) [text]' if plaintext else 'read(write(L)) == sysex(L) [binary]',
+                                      data_of(got) == want, 'overwrite-keeps-old-content', case, data_of(got))
+                            write_syx_file(path, long_list, plaintext=first_plain)
+                    except Exception as exc:
+                        ctx.fail('read(write(L)) == sysex(L) [binary]', f'overwrite:{type(exc).__name__}', case, repr(exc))
+                    os.remove(path)
+                    n += 1
             # failed reads (and other calls) must leave nothing behind for the next read
             good = os.path.join(d, 'good.syx')
             write_syx_file(good, [Message('sysex', data=(9, 8, 7))])
